@@ -488,4 +488,11 @@ def record_tables(draw: Any, max_recs: int = 12,
                 st.booleans(), min_size=3, max_size=3)))
     return {"insts": insts, "recs": recs, "goal_mode": goal_mode,
             "custom": custom, "custom_name": custom_name,
-            "key_order": draw(st.sampled_from([0, 0, 1, 2]))}
+            "key_order": draw(st.sampled_from([0, 0, 1, 2])),
+            # the same records once more as part of a wider table, under a
+            # column scope (CsvWriter(scope) / csv_select_scope)
+            "scope": draw(st.sampled_from([None, None, "pr", "a.b", "x"])),
+            # statistics tables: one subset of the bin-count bounds for all
+            # records (None = all three)
+            "stats_bounds": draw(st.one_of(st.none(), st.none(), st.lists(
+                st.booleans(), min_size=3, max_size=3)))}
